@@ -133,6 +133,10 @@ def proper_prefix_blocks(a, b, p):
     return z3.Implies(z3.PrefixOf(p, a), z3.Length(p) <= z3.Length(a))
 
 
+def prefix_antisym(a, b):
+    return z3.Implies(z3.And(z3.PrefixOf(a, b), z3.PrefixOf(b, a)), a == b)
+
+
 def code_slice_eq(p, a):
     """a[:len(p)] == p exactly as the interpreter builds it for the Python expression (with slice clamping)"""
     from pyvc import ops
@@ -149,7 +153,7 @@ ALL = {
     "prefix_excl": (prefix_excl, 3), "prefix_trans": (prefix_trans, 3), "eq_cons": (eq_cons, 2), "eq_strip": (eq_strip, 3),
     "prefix_is_slice": (prefix_is_slice, 2), "prefix_is_code_slice": (prefix_is_code_slice, 2),
     "split3": (split3, "si"), "split2": (split2, "si"), "tail_tail": (tail_tail, "sii"),
-    "lcp_prefix": (lcp_prefix, "ssi"), "tail_concat": (tail_concat, "ssi"), "nth_concat": (nth_concat, 2),
+    "prefix_antisym": (prefix_antisym, 2), "lcp_prefix": (lcp_prefix, "ssi"), "tail_concat": (tail_concat, "ssi"), "nth_concat": (nth_concat, 2),
     "prefix_concat_left": (prefix_concat_left, 3), "eq_concat_prefix": (eq_concat_prefix, 3),
     "proper_prefix_blocks": (proper_prefix_blocks, 3),
     "slice_slice": (slice_slice, "sii"), "prefix_nth": (prefix_nth, "ssi"), "code_slice_props": (code_slice_props, "si"), "prefix_concat": (prefix_concat, 3), "prefix_unit": (prefix_unit, "is"), "eq_concat": (eq_concat, 3),
